@@ -226,7 +226,8 @@ class Optimizer(Logger, Citable):
 
         """
 
-        return [c[2]() if c[4] == 'linear' else math.log10(c[2]())
+        return [c[2]() if self._fit_priors[c[0]].priorMode is PriorMode.LINEAR
+                else math.log10(c[2]())
                 for c in self.fitting_parameters]
 
     @property
